@@ -102,6 +102,17 @@ pub fn mk_vals(rng: &mut Rng, n: usize, big_ppm: u64) -> Vec<Value> {
     v
 }
 
+/// reader buffer size affordable for a value of `len` bytes (tiny buffers cost one blocking-pool round trip per read)
+pub fn pick_buf(rng: &mut Rng, len: u64) -> u64 {
+    if len <= 4096 {
+        *rng.pick(&[1u64, 7, 1024, 8192, 65536])
+    } else if len <= 40_000 {
+        *rng.pick(&[7u64, 64, 1024, 8192, 65536])
+    } else {
+        *rng.pick(&[1024u64, 8192, 65536])
+    }
+}
+
 pub fn chunking(rng: &mut Rng, len: u64) -> Option<Vec<u64>> {
     if len == 0 {
         return match rng.below(3) {
@@ -340,6 +351,7 @@ pub fn gen_history(rng: &mut Rng, m: &Mix) -> Value {
     let keys = pick_keys(rng, nk, m.hostile);
     let vals = mk_vals(rng, nv, m.big_ppm);
     let n = rng.range(m.len.0, m.len.1);
+    let maxlen = vals.iter().map(|v| v["len"].as_u64().unwrap_or(0)).max().unwrap_or(0);
     let total = m.w_write + m.w_remove + m.w_remove_hash + m.w_remove_fully + m.w_clear + m.w_lookup + m.w_read + m.w_list + m.w_write_hash;
     let mut steps = Vec::new();
     for i in 0..n {
@@ -380,7 +392,7 @@ pub fn gen_history(rng: &mut Rng, m: &Mix) -> Value {
                                     if x < m.w_read {
                                         st = match rng.below(3) {
                                             0 => json!({"k":"api","op":"read","key":ki}),
-                                            1 => json!({"k":"api","op":"reader","key":ki,"bufs":[*rng.pick(if m.big_ppm > 0 { &[1024u64,8192,65536][..] } else { &[1u64,7,1024,8192,65536][..] })]}),
+                                            1 => json!({"k":"api","op":"reader","key":ki,"bufs":[pick_buf(rng, maxlen)]}),
                                             _ => json!({"k":"api","op":"read","addr":{"val":vi,"algo":"sha256"}}),
                                         };
                                     } else {
